@@ -54,7 +54,8 @@ THEOREMS = ["TsrunVerif.Ops." + t for t in [
     ["TsrunVerif.Compile." + t for t in [
         "codeE_ok", "codeE_okH", "codeS_ok", "codeL_ok", "compileE_eq", "compileS_eq", "compileInner_eq", "compileL_eq", "compileProgram_eq", "compileE_correct", "compileE_restores",
         "program_completes", "program_throws", "empty_catch_total", "run_mono", "run_unique",
-        "codeE_isSome_iff", "codeS_isSome_iff", "program_refused_iff", "rightNested_limit", "leftNested_limit"]]
+        "codeE_isSome_iff", "codeS_isSome_iff", "program_refused_iff", "rightNested_limit", "leftNested_limit",
+        "program_registers_in_file", "program_no_fault"]]
 ASSUMPTIONS = [
     "M-Compile mirrors compile_expression / compile_statement_impl / BytecodeBuilder (register allocator, jump placeholders, patch_jump) for literals, variables, unary and binary operators, && || ??, ?:, the comma operator, "
     "every form of assignment to a variable, ++/--, expression statements, if, while, do-while and blocks without declarations; its VM executes the 19 instructions these compile to, with PushScope/PopScope as no-ops (no declaration "
